@@ -307,8 +307,7 @@ def exp_zero_seq(base):
         yield value
 
 
-def gauss_newton(op, x, rhs, niter, zero_seq=exp_zero_seq(2.0),
-                 callback=None):
+def gauss_newton(op, x, rhs, niter, zero_seq=None, callback=None):
     """Optimized implementation of a Gauss-Newton method.
 
     This method solves the inverse problem (of the first kind)::
@@ -344,12 +343,18 @@ def gauss_newton(op, x, rhs, niter, zero_seq=exp_zero_seq(2.0),
     zero_seq : iterable, optional
         Zero sequence whose values are used for the regularization of
         the linearized problem in each Newton step.
+        Default: ``exp_zero_seq(2.0)``, started anew in each call.
     callback : callable, optional
         Object executing code per iteration, e.g. plotting each iterate.
     """
     if x not in op.domain:
         raise TypeError('`x` {!r} is not in the domain of `op` {!r}'
                         ''.format(x, op.domain))
+
+    if zero_seq is None:
+        zero_seq = exp_zero_seq(2.0)
+    else:
+        zero_seq = iter(zero_seq)
 
     x0 = x.copy()
     id_op = IdentityOperator(op.domain)
